@@ -68,7 +68,8 @@ STUB_CLOCK = ('datetime.datetime.now in test_suite.processing / reporting / repo
               '(CrossHair makes time symbolic; timing is outside the claim)')
 STUB_PATH_HASH = ('pathlib.PurePath.__hash__ -> str.__hash__(str(path)) (work-around: CrossHair short-circuits the '
                   'builtin hash() inside pathlib into a symbolic int)')
-STUB_MKDTEMP = 'sandbox_dir_resolving.mk_tmp_dir_with_prefix -> counter-named directories (CrossHair makes random symbolic)'
+STUB_MKDTEMP = ('sandbox_dir_resolving.mk_tmp_dir_with_prefix and processing.preprocessor.tempfile.TemporaryFile -> '
+                'counter-named directories / files (CrossHair makes random symbolic)')
 
 OUTSIDE_REPORT = ('timing fields, time stamps, host name', 'XML formatting beyond the counted attributes and the '
                                                            'testcase / failure / error elements',
@@ -623,6 +624,66 @@ def _k3_obligations(tier: str) -> List[Ob]:
 
 def obligations(tier: str) -> List[Ob]:
     return _k1_obligations(tier) + _k2_obligations(tier) + _k3_obligations(tier)
+
+
+# --------------------------------------------------------------------------- self-test (stubs and reference oracles)
+
+def selftest(tier) -> int:
+    """Concrete comparison of the stubs / reference oracles with the real things they stand for:
+    the reference glob + ordering against pathlib on the fixture written to disk, the path hash and the clock
+    stubs against their contracts, the result catalogue against the real executor, the report parsers on real reports."""
+    import os
+    import pathlib
+    from vsym import scratch
+    n = 0
+    # reference glob vs pathlib.Path.glob (real, unpatched), and the order against sorted(Path)
+    entries = dict(FILES)
+    entries.update({'r.suite': '', 'a.suite': '', 'b.suite': '', 'd/exactly.suite': '', 'd/s.suite': '',
+                    'd/sub/exactly.suite': '', 'd/sub/w.case': ''})
+    tree = L.Tree(entries)
+    work = scratch.new_dir('selftest')
+    tree.write(work)
+    patterns = [x.strip('\'"') for x in SL + CL if any(w in x for w in '*?[') and ' ' not in x]
+    patterns += ['*', '**', '**/*', 'd/*', '*/*', '?', '*.suite', 'sub/*', '[de]/*.case']
+    for base in ('', 'd'):
+        for pat in patterns:
+            real = sorted(pathlib.Path(work, base).glob(pat))
+            real_rel = [os.path.relpath(str(p), work).replace(os.sep, '/') for p in real]
+            real_rel = [p for p in real_rel if p != '.']
+            ref = sorted(L._glob(tree, base, pat), key=lambda p: tuple(p.split('/')))
+            ref = [p for p in ref if p != '']
+            if real_rel != ref:
+                raise AssertionError('reference glob differs from pathlib for %r in %r: %r vs %r' % (pat, base, ref, real_rel))
+            n += 1
+    scratch.remove(work)
+    # path hash stub: equal paths hash equal, dict look-up by an equal path works
+    L.install_clock()
+    a, b = pathlib.Path('/x/y/../z.case'), pathlib.Path('/x', 'y', '..', 'z.case')
+    if hash(a) != hash(b) or {a: 1}.get(b) != 1 or hash(pathlib.Path('/x/y')) == hash(pathlib.Path('/x/z')):
+        raise AssertionError('path hash stub broken')
+    n += 1
+    # clock stub: strictly increasing readings within a run
+    t = [L._now() for _ in range(5)]
+    if not all(x < y for x, y in zip(t, t[1:])):
+        raise AssertionError('clock stub not increasing')
+    n += 1
+    # result catalogue: the real executor produced the named status
+    for k in range(9):
+        if L._full_exe_result(k).status.name != L.KINDS[k]:
+            raise AssertionError('result catalogue')
+        n += 1
+    # report parsers on real reports
+    layout = ('r.suite', 1, (('a.suite', 2, ()),))
+    obs, exp = L.run_suites_executor(layout, [1, 0, 6], False)
+    ev, rest = L.parse_progress(obs.out)
+    if [e[0] for e in ev] != ['begin', 'case', 'case', 'end', 'begin', 'case', 'end'] or rest != ['ERROR']:
+        raise AssertionError('progress parser: %r' % (obs.out,))
+    obs, exp = L.run_suites_executor(layout, [1, 0, 6], True)
+    suites = L.parse_junit(obs.out)
+    if [(s['tests'], s['failures'], s['errors'], len(s['cases'])) for s in suites] != [(2, 1, 0, 2), (1, 0, 1, 1)]:
+        raise AssertionError('junit parser: %r' % (obs.out,))
+    n += 2
+    return n
 
 
 ASSUMPTIONS = [
